@@ -359,7 +359,14 @@ func (s *Subscriber) OnSyncFinished() (<-chan SyncFinished, context.CancelFunc) 
 	cq := chanqueue.New[SyncFinished]()
 	ch := cq.In()
 	verifYield("listen:adding", "")
-	s.addEventChan <- ch
+	select {
+	case s.addEventChan <- ch:
+	case <-s.closing:
+		// The Subscriber is closing, or closed, and the distributor may
+		// already have exited. Return a closed channel instead of blocking.
+		cq.Close()
+		return cq.Out(), func() {}
+	}
 
 	cncl := func() {
 		if ch == nil {
